@@ -25,15 +25,40 @@
 //     the protocol or to touch its state.)
 //
 // Anything else is an error: the translation fails and the check reports a broken tie.
-// Cosmetic differences are normalised: names of locals, fields and receivers (roles are taken
-// from the types), `defer mu.Unlock()` directly after the Lock instead of an explicit Unlock
-// before the final return, `K <= len(x)` for `len(x) >= K`, `x, err := f(); if err != nil` for
-// `if x, err := f(); err != nil`, comments, blank lines, extra Data statements, and helper
-// extraction: a call statement `f(args)` / `x.m(args)` / `go f(args)` of an unexported function
-// or method of the same package without results (and which is not itself a target) is replaced
-// by the callee's body with the parameters replaced by the arguments before translation; a call
-// `f()` of a parameterless unexported function whose body is `return e` stands for e; a loop
-// bound or a constant may be a local `n := e` that is never reassigned.
+//
+// Before a function is translated it is brought to a normal form (normalize.go: Go to Go rewrites
+// with syntactic side conditions, each a standard behaviour-preserving transformation), so that
+// one spelling stands for each of these families:
+//   - helpers, both directions: a call statement `f(args)` / `x.m(args)` / `go f(args)` /
+//     `return f(args)` of an unexported function or method of the same package (not itself a
+//     target) is replaced by the callee's body with the parameters replaced by the arguments
+//     (arguments: variables, fields, &x, function names, allocations with constant sizes); a
+//     callee with early returns stands verbatim in tail position, elsewhere its returns become
+//     else-branches first; a call of a one-line `return e` helper stands for e anywhere in an
+//     expression; a function literal bound to a local and used once stands at its use; methods
+//     and functions are treated alike.  Declarations are looked up in the whole package
+//     directory: moving them between files changes nothing.
+//   - control flow: early return vs if / else (error tests take the early-return form, other
+//     tests the single-exit form with the common tail factored out), `else if` chains, tagless
+//     and tagged switch, a trailing `return`, `if err == nil {..} else {..}`, `defer mu.Unlock()`
+//     and the deferred `wg.Wait()` / `close(c)` of a driver (written out at the exits; only where
+//     the returned values are constants).
+//   - data flow: a hoisted sub-expression `v := e` used only in the next condition, `if v := e; ..`,
+//     named constants (package level or local const blocks, constant expressions) vs literals,
+//     `x, err := f(); if err != nil` vs `if x, err := f(); err != nil` vs assignment to variables
+//     declared before, n++ / n += 1 / n = n + 1.
+//   - loops: `for i := 0; i < len(x); i++` / `for i := range x` with x[i] / `for _, t := range x`;
+//     `for i := 0; i < n; i++` / `i <= n-1` / `for i := range n`; the number of points of the
+//     layer is compared with the allocated length as a polynomial.
+//
+// What is NOT normalised here is decided in Coq: the comparison operators of the buffer and batch
+// thresholds are kept as written and Sys/BufferProg.v / Sys/SchedProg.v prove the written test
+// equivalent to the model's (`len > N-1`, `!(len < N)`, `len != 0` for `len > 0`, `>=` for `==`
+// where the length never exceeds the bound).
+//
+// A Data statement may call functions of this package, but not one whose body (three levels deep)
+// contains go / send / receive / select / close / Lock / Unlock / Wait / Done: such a helper takes
+// part in the protocol, and if it could not be inlined the translation fails.
 package sysgen
 
 import (
@@ -127,9 +152,12 @@ func src(fset *token.FileSet, n ast.Node) string {
 
 var forbidden = regexp.MustCompile(`Admitted|admit|Axiom|Parameter|Conjecture|Obligations|bypass_check|Unset|Hypothes|Variable`)
 
-func expr(fset *token.FileSet, e ast.Expr) string {
+func expr(fset *token.FileSet, e ast.Expr) string { return nodeText(fset, e) }
+
+// nodeText prints a node without white space (used to compare pieces of source).
+func nodeText(fset *token.FileSet, n ast.Node) string {
 	var b bytes.Buffer
-	printer.Fprint(&b, fset, e)
+	printer.Fprint(&b, fset, n)
 	return strings.Join(strings.Fields(b.String()), "")
 }
 
@@ -139,7 +167,8 @@ type pkg struct {
 	fset   *token.FileSet
 	dir    string
 	files  []*ast.File
-	consts map[string]int // package-level integer constants
+	consts map[string]int  // package-level integer constants
+	shadow map[string]bool // names declared inside the function being translated (they hide package-level functions)
 }
 
 func loadPkg(repo, rel string) (*pkg, error) {
@@ -168,6 +197,13 @@ func loadPkg(repo, rel string) (*pkg, error) {
 		}
 		p.files = append(p.files, f)
 	}
+	// package-level integer constants, wherever they are declared and however they are spelled
+	// (a literal, another constant, + - * / << of constants, a conversion to an integer type)
+	type cdef struct {
+		name string
+		val  ast.Expr
+	}
+	var defs []cdef
 	for _, f := range p.files {
 		for _, d := range f.Decls {
 			gd, ok := d.(*ast.GenDecl)
@@ -178,12 +214,25 @@ func loadPkg(repo, rel string) (*pkg, error) {
 				vs := s.(*ast.ValueSpec)
 				for i, id := range vs.Names {
 					if i < len(vs.Values) {
-						if v, ok := intLit(vs.Values[i]); ok {
-							p.consts[id.Name] = v
-						}
+						defs = append(defs, cdef{id.Name, vs.Values[i]})
 					}
 				}
 			}
+		}
+	}
+	for round := 0; round < 8; round++ {
+		progress := false
+		for _, d := range defs {
+			if _, done := p.consts[d.name]; done {
+				continue
+			}
+			if v, ok := p.constVal(d.val, nil); ok {
+				p.consts[d.name] = v
+				progress = true
+			}
+		}
+		if !progress {
+			break
 		}
 	}
 	return p, nil
@@ -314,11 +363,62 @@ func (p *pkg) constVal(e ast.Expr, local map[string]int) (int, bool) {
 					return x - y, true
 				}
 			case token.MUL:
-				return x * y, true
+				if x*y < 1<<31 {
+					return x * y, true
+				}
+			case token.QUO:
+				if y > 0 {
+					return x / y, true
+				}
+			case token.REM:
+				if y > 0 {
+					return x % y, true
+				}
+			case token.SHL:
+				if y < 31 && x<<uint(y) < 1<<31 {
+					return x << uint(y), true
+				}
+			case token.SHR:
+				if y < 63 {
+					return x >> uint(y), true
+				}
 			}
 		}
 	}
+	if c, ok := e.(*ast.CallExpr); ok && len(c.Args) == 1 {
+		if id, ok := c.Fun.(*ast.Ident); ok && intTypes[id.Name] {
+			return p.constVal(c.Args[0], local)
+		}
+	}
 	return 0, false
+}
+
+var intTypes = map[string]bool{"int": true, "int32": true, "int64": true, "uint": true, "uint32": true, "uint64": true}
+
+// localConsts: the integer constants declared by const statements anywhere in a function body
+// (a later declaration of the same name wins; the translators use them for thresholds only).
+func (p *pkg) localConsts(body *ast.BlockStmt, local map[string]int) {
+	ast.Inspect(body, func(n ast.Node) bool {
+		ds, ok := n.(*ast.DeclStmt)
+		if !ok {
+			return true
+		}
+		gd := ds.Decl.(*ast.GenDecl)
+		if gd.Tok != token.CONST {
+			return true
+		}
+		for _, sp := range gd.Specs {
+			vs := sp.(*ast.ValueSpec)
+			for i, id := range vs.Names {
+				if i < len(vs.Values) {
+					if v, ok := p.constVal(vs.Values[i], local); ok {
+						local[id.Name] = v
+					}
+				}
+			}
+		}
+		return true
+	})
 }
 
 // ---------------------------------------------------------------- inlining of helpers
@@ -465,30 +565,23 @@ func freeIdents(e ast.Expr) map[string]bool {
 	return out
 }
 
-// inlined returns the body of the callee of c with its parameters (and receiver) replaced by the
-// arguments, or nil if the call is not an inlinable helper call.  asGoroutine: the body becomes
-// the body of a new goroutine (defer and return keep their meaning); otherwise the body must
-// contain neither (a trailing bare return is dropped).
-func (p *pkg) inlined(c *ast.CallExpr, encRecvName, encRecvType string, asGoroutine bool) []ast.Stmt {
-	orig, recvArg := p.callee(c, encRecvName, encRecvType)
-	if orig == nil || !unexported(orig.Name.Name) || (orig.Recv == nil && targetNames[orig.Name.Name]) {
-		return nil
-	}
-	if orig.Type.Results != nil && len(orig.Type.Results.List) > 0 {
-		return nil
-	}
+// bind prepares the inlining of the call c of orig: a private copy of the declaration and the
+// substitution of its parameters (and receiver) by the arguments.  ok = false if the call cannot
+// be inlined (an argument with side effects, a parameter that is assigned or shadowed, a local of
+// the callee that would capture a variable of an argument, a variadic call).
+func (p *pkg) bind(orig *ast.FuncDecl, c *ast.CallExpr, recvArg ast.Expr) (*ast.FuncDecl, map[string]ast.Expr, bool) {
 	if c.Ellipsis.IsValid() {
-		return nil
+		return nil, nil, false
 	}
 	fd := p.freshDecl(orig)
 	if fd == nil {
-		return nil
+		return nil, nil, false
 	}
 	subst := map[string]ast.Expr{}
 	if fd.Recv != nil {
 		if len(fd.Recv.List[0].Names) == 1 {
 			if !simpleArg(recvArg) {
-				return nil
+				return nil, nil, false
 			}
 			subst[fd.Recv.List[0].Names[0].Name] = recvArg
 		}
@@ -497,7 +590,7 @@ func (p *pkg) inlined(c *ast.CallExpr, encRecvName, encRecvType string, asGorout
 	if fd.Type.Params != nil {
 		for _, f := range fd.Type.Params.List {
 			if _, variadic := f.Type.(*ast.Ellipsis); variadic {
-				return nil
+				return nil, nil, false
 			}
 			for _, id := range f.Names {
 				params = append(params, id.Name)
@@ -505,68 +598,91 @@ func (p *pkg) inlined(c *ast.CallExpr, encRecvName, encRecvType string, asGorout
 		}
 	}
 	if len(params) != len(c.Args) {
-		return nil
+		return nil, nil, false
 	}
 	for i, a := range c.Args {
 		if !simpleArg(a) {
-			return nil
+			// an allocation may move to the parameter's use only if that is the only one and is
+			// executed once per call
+			if !p.freshValue(a) || !usedOnceStraight(fd.Body, params[i]) {
+				return nil, nil, false
+			}
 		}
 		subst[params[i]] = a
 	}
 	decl := declaredNames(fd.Body)
 	for name, a := range subst {
 		if decl[name] {
-			return nil // the parameter is shadowed somewhere in the body
+			return nil, nil, false // the parameter is shadowed somewhere in the body
 		}
 		for v := range freeIdents(a) {
 			if decl[v] {
-				return nil // a local of the callee would capture a variable of the argument
+				return nil, nil, false // a local of the callee would capture a variable of the argument
 			}
 		}
 	}
 	// parameters must not be assigned (they would be copies in the callee)
 	for name := range subst {
 		if assignsTo(fd.Body.List, name) {
-			return nil
+			return nil, nil, false
 		}
 	}
-	body := fd.Body.List
-	if !asGoroutine {
-		if n := len(body); n > 0 {
-			if rs, ok := body[n-1].(*ast.ReturnStmt); ok && len(rs.Results) == 0 {
-				body = body[:n-1]
+	// named results are variables of the callee
+	if fd.Type.Results != nil {
+		for _, f := range fd.Type.Results.List {
+			if len(f.Names) > 0 {
+				return nil, nil, false
 			}
 		}
-		bad := false
-		depth := 0
-		var walk func(n ast.Node) bool
-		walk = func(n ast.Node) bool {
-			switch x := n.(type) {
-			case *ast.FuncLit:
-				depth++
-				ast.Inspect(x.Body, walk)
-				depth--
-				return false
-			case *ast.ReturnStmt:
-				if depth == 0 {
-					bad = true
-				}
-			case *ast.DeferStmt:
-				if depth == 0 {
-					bad = true
+	}
+	return fd, subst, true
+}
+
+// freshValue: an argument that may be evaluated at the place of the parameter's use instead of
+// at the call: an allocation with constant sizes - make(T, consts..), new(T), T{} - has no side
+// effect and does not depend on the state.
+func (p *pkg) freshValue(e ast.Expr) bool {
+	switch x := unparen(e).(type) {
+	case *ast.CallExpr:
+		if isIdent(x.Fun, "new") && len(x.Args) == 1 {
+			return true
+		}
+		if isIdent(x.Fun, "make") && len(x.Args) >= 1 {
+			for _, a := range x.Args[1:] {
+				if _, ok := p.constVal(a, nil); !ok {
+					return false
 				}
 			}
 			return true
 		}
-		for _, s := range body {
-			ast.Inspect(s, walk)
-		}
-		if bad {
-			return nil
-		}
+	case *ast.CompositeLit:
+		return len(x.Elts) == 0
 	}
-	blk := &ast.BlockStmt{List: body}
-	astutil.Apply(blk, func(cur *astutil.Cursor) bool {
+	return false
+}
+
+// usedOnceStraight: the variable occurs exactly once in body, outside loops and function literals.
+func usedOnceStraight(body *ast.BlockStmt, v string) bool {
+	if countIdent(body, v) != 1 {
+		return false
+	}
+	ok := true
+	ast.Inspect(body, func(n ast.Node) bool {
+		switch x := n.(type) {
+		case *ast.ForStmt, *ast.RangeStmt, *ast.FuncLit:
+			if countIdent(x, v) > 0 {
+				ok = false
+			}
+			return false
+		}
+		return ok
+	})
+	return ok
+}
+
+// substitute replaces the identifiers of subst inside n (n itself must not be one of them).
+func substitute(n ast.Node, subst map[string]ast.Expr) {
+	astutil.Apply(n, func(cur *astutil.Cursor) bool {
 		id, ok := cur.Node().(*ast.Ident)
 		if !ok {
 			return true
@@ -592,47 +708,230 @@ func (p *pkg) inlined(c *ast.CallExpr, encRecvName, encRecvType string, asGorout
 		}
 		return false
 	}, nil)
+}
+
+// inlinable: the declaration a call refers to may be inlined (an unexported function or method of
+// this package that is not a target and whose name is not hidden by a local of the function being
+// translated).
+func (p *pkg) inlinable(c *ast.CallExpr, encRecvName, encRecvType string) (*ast.FuncDecl, ast.Expr) {
+	if id, ok := c.Fun.(*ast.Ident); ok && p.shadow[id.Name] {
+		return nil, nil
+	}
+	orig, recvArg := p.callee(c, encRecvName, encRecvType)
+	if orig == nil || !unexported(orig.Name.Name) || (orig.Recv == nil && targetNames[orig.Name.Name]) {
+		return nil, nil
+	}
+	return orig, recvArg
+}
+
+// inlined returns the body of the callee of the call statement c with its parameters (and
+// receiver) replaced by the arguments, or nil if the call is not an inlinable helper call.
+// verbatim (the body becomes the body of a new goroutine, or the call is the last statement of a
+// function without results): defer and return keep their meaning.  Otherwise the body is brought
+// to single-exit form first (early returns become else-branches); a body with a defer, or with a
+// return inside a loop, cannot stand in the middle of the caller.
+func (p *pkg) inlined(c *ast.CallExpr, encRecvName, encRecvType string, verbatim bool) []ast.Stmt {
+	return p.inlinedR(c, encRecvName, encRecvType, verbatim, false)
+}
+
+// inlinedR: withResults - the call is the operand of `return f(..)`: the callee has results and its
+// body stands verbatim for the return statement (its returns return from the caller).
+func (p *pkg) inlinedR(c *ast.CallExpr, encRecvName, encRecvType string, verbatim, withResults bool) []ast.Stmt {
+	orig, recvArg := p.inlinable(c, encRecvName, encRecvType)
+	if orig == nil {
+		return nil
+	}
+	if hasResults := orig.Type.Results != nil && len(orig.Type.Results.List) > 0; hasResults != withResults {
+		return nil
+	}
+	fd, subst, ok := p.bind(orig, c, recvArg)
+	if !ok {
+		return nil
+	}
+	body := p.desugar(fd.Body.List)
+	if !verbatim {
+		body, ok = p.singleExit(body)
+		if !ok {
+			return nil
+		}
+	}
+	blk := &ast.BlockStmt{List: body}
+	substitute(blk, subst)
+	for k := range declaredNames(blk) {
+		p.shadow[k] = true
+	}
 	return blk.List
 }
 
+// inlinedExpr: the call c of an unexported function or method whose body is `return e`, as the
+// expression e with the parameters replaced by the arguments (nil: not such a call).
+func (p *pkg) inlinedExpr(c *ast.CallExpr, encRecvName, encRecvType string) ast.Expr {
+	orig, recvArg := p.inlinable(c, encRecvName, encRecvType)
+	if orig == nil || len(orig.Body.List) != 1 {
+		return nil
+	}
+	if rs, ok := orig.Body.List[0].(*ast.ReturnStmt); !ok || len(rs.Results) != 1 {
+		return nil
+	}
+	fd, subst, ok := p.bind(orig, c, recvArg)
+	if !ok {
+		return nil
+	}
+	rs := fd.Body.List[0].(*ast.ReturnStmt)
+	if id, ok := rs.Results[0].(*ast.Ident); ok {
+		if e, ok := subst[id.Name]; ok {
+			return e
+		}
+		return id
+	}
+	substitute(rs, subst)
+	return rs.Results[0]
+}
+
+// exprCalls replaces, everywhere in n, the calls of one-line `return e` helpers by e.
+func (p *pkg) exprCalls(n ast.Node, encRecvName, encRecvType string) {
+	for round := 0; round < 4; round++ {
+		changed := false
+		astutil.Apply(n, nil, func(cur *astutil.Cursor) bool {
+			c, ok := cur.Node().(*ast.CallExpr)
+			if !ok {
+				return true
+			}
+			e := p.inlinedExpr(c, encRecvName, encRecvType)
+			if e == nil {
+				return true
+			}
+			if _, isStmt := cur.Parent().(*ast.ExprStmt); isStmt {
+				if _, isCall := e.(*ast.CallExpr); !isCall {
+					return true
+				}
+			}
+			bare := false // positions in which no parentheses are needed
+			switch par := cur.Parent().(type) {
+			case *ast.AssignStmt, *ast.ValueSpec, *ast.ReturnStmt, *ast.IfStmt, *ast.ParenExpr:
+				bare = true
+			case *ast.CallExpr:
+				bare = par.Fun != c
+			}
+			switch e.(type) {
+			case *ast.Ident, *ast.BasicLit, *ast.CallExpr, *ast.SelectorExpr, *ast.CompositeLit, *ast.IndexExpr:
+				bare = true
+			}
+			if bare {
+				cur.Replace(e)
+			} else {
+				cur.Replace(&ast.ParenExpr{X: e})
+			}
+			changed = true
+			return true
+		})
+		if !changed {
+			break
+		}
+	}
+}
+
 // expand replaces helper calls in a statement list (recursively, also inside nested blocks).
-func (p *pkg) expand(stmts []ast.Stmt, encRecvName, encRecvType string, depth int) []ast.Stmt {
+// tail: falling off the end of the list returns from a function without results (or ends a goroutine).
+func (p *pkg) expand(stmts []ast.Stmt, encRecvName, encRecvType string, depth int, tail bool) []ast.Stmt {
 	var out []ast.Stmt
-	for _, s := range stmts {
+	for idx, s := range stmts {
+		last := idx == len(stmts)-1
 		if depth < 4 {
 			if c := callOf(s); c != nil {
-				if b := p.inlined(c, encRecvName, encRecvType, false); b != nil {
-					out = append(out, p.expand(b, encRecvName, encRecvType, depth+1)...)
+				if b := p.inlined(c, encRecvName, encRecvType, tail && last); b != nil {
+					p.exprCalls(&ast.BlockStmt{List: b}, encRecvName, encRecvType)
+					out = append(out, p.expand(b, encRecvName, encRecvType, depth+1, tail && last)...)
 					continue
+				}
+			}
+			if rs, ok := s.(*ast.ReturnStmt); ok && len(rs.Results) == 1 {
+				if c, ok := rs.Results[0].(*ast.CallExpr); ok {
+					if b := p.inlinedR(c, encRecvName, encRecvType, true, true); b != nil && terminates(b) {
+						p.exprCalls(&ast.BlockStmt{List: b}, encRecvName, encRecvType)
+						out = append(out, p.expand(b, encRecvName, encRecvType, depth+1, false)...)
+						continue
+					}
 				}
 			}
 			if gs, ok := s.(*ast.GoStmt); ok {
 				if _, lit := gs.Call.Fun.(*ast.FuncLit); !lit {
 					if b := p.inlined(gs.Call, encRecvName, encRecvType, true); b != nil {
+						p.exprCalls(&ast.BlockStmt{List: b}, encRecvName, encRecvType)
 						gs.Call = &ast.CallExpr{Fun: &ast.FuncLit{Type: &ast.FuncType{Params: &ast.FieldList{}}, Body: &ast.BlockStmt{List: b}}}
 					}
 				}
 			}
 		}
-		ast.Inspect(s, func(n ast.Node) bool {
-			if blk, ok := n.(*ast.BlockStmt); ok {
-				blk.List = p.expand(blk.List, encRecvName, encRecvType, depth)
-				return false
+		switch x := s.(type) {
+		case *ast.BlockStmt:
+			x.List = p.expand(x.List, encRecvName, encRecvType, depth, tail && last)
+		case *ast.IfStmt:
+			var walk func(is *ast.IfStmt)
+			walk = func(is *ast.IfStmt) {
+				is.Body.List = p.expand(is.Body.List, encRecvName, encRecvType, depth, tail && last)
+				switch e := is.Else.(type) {
+				case *ast.BlockStmt:
+					e.List = p.expand(e.List, encRecvName, encRecvType, depth, tail && last)
+				case *ast.IfStmt:
+					walk(e)
+				}
 			}
-			return true
-		})
+			walk(x)
+		case *ast.GoStmt:
+			if fl, ok := x.Call.Fun.(*ast.FuncLit); ok && (fl.Type.Results == nil || len(fl.Type.Results.List) == 0) {
+				fl.Body.List = p.expand(fl.Body.List, encRecvName, encRecvType, depth, true)
+			}
+		default:
+			ast.Inspect(s, func(n ast.Node) bool {
+				if blk, ok := n.(*ast.BlockStmt); ok {
+					blk.List = p.expand(blk.List, encRecvName, encRecvType, depth, false)
+					return false
+				}
+				return true
+			})
+		}
 		out = append(out, s)
 	}
 	return out
 }
 
-// expandFunc inlines the helper calls of a target function (in place).
-func (p *pkg) expandFunc(fd *ast.FuncDecl) {
+// expandFunc brings a target function to normal form (in place): one-line helpers and helper
+// calls inlined, then the passes of normalize.go.  pre, if not nil, runs after the inlining and
+// before the control-flow normalisation (the buffers' `defer Unlock`).
+func (p *pkg) expandFunc(fd *ast.FuncDecl) { p.prepare(fd, nil) }
+
+func (p *pkg) prepare(fd *ast.FuncDecl, pre func([]ast.Stmt) []ast.Stmt) {
 	rn, rt := "", ""
 	if fd.Recv != nil && len(fd.Recv.List) == 1 && len(fd.Recv.List[0].Names) == 1 {
 		rn, rt = fd.Recv.List[0].Names[0].Name, typeName(fd.Recv.List[0].Type)
 	}
-	fd.Body.List = p.expand(fd.Body.List, rn, rt, 0)
+	p.shadow = declaredNames(fd.Body)
+	if fd.Type.Params != nil {
+		for _, f := range fd.Type.Params.List {
+			for _, id := range f.Names {
+				p.shadow[id.Name] = true
+			}
+		}
+	}
+	if rn != "" {
+		p.shadow[rn] = true
+	}
+	resultless := fd.Type.Results == nil || len(fd.Type.Results.List) == 0
+	fd.Body.List = p.closures(fd.Body.List)
+	p.exprCalls(fd.Body, rn, rt)
+	fd.Body.List = p.expand(fd.Body.List, rn, rt, 0, resultless)
+	fd.Body.List = p.closures(fd.Body.List)
+	fd.Body.List = p.desugar(fd.Body.List)
+	tidy(fd.Body)
+	incdec(fd.Body)
+	fd.Body.List = p.locals(fd.Body.List)
+	tidy(fd.Body)
+	fd.Body.List = p.loops(fd.Body.List)
+	if pre != nil {
+		fd.Body.List = pre(fd.Body.List)
+	}
+	fd.Body.List = p.control(fd.Body.List, resultless)
 }
 
 // resolve replaces `f()` by e when f is a parameterless unexported function of this package
@@ -715,7 +1014,7 @@ var syncMethods = map[string]bool{"Lock": true, "Unlock": true, "RLock": true, "
 
 // isData: the statement (or expression) cannot take part in the protocol of a function whose
 // tracked objects are `tracked`.
-func isData(n ast.Node, tracked map[string]bool) (ok bool, why string) {
+func isData0(n ast.Node, tracked map[string]bool) (ok bool, why string) {
 	ok = true
 	fail := func(s string) { ok = false; why = s }
 	depth := 0 // nesting depth of function literals (their own `return` is harmless)
@@ -803,6 +1102,80 @@ func isData(n ast.Node, tracked map[string]bool) (ok bool, why string) {
 	}
 	walk(n)
 	return
+}
+
+// isData: isData0, and the statement calls no function or method of this package whose body
+// (or the body of what that calls, three levels deep) starts a goroutine, sends, receives, selects,
+// closes a channel or calls a synchronisation method: such a helper takes part in the protocol
+// and must have been inlined to be understood.
+func (p *pkg) isData(n ast.Node, tracked map[string]bool) (bool, string) {
+	if ok, why := isData0(n, tracked); !ok {
+		return false, why
+	}
+	bad := ""
+	ast.Inspect(n, func(m ast.Node) bool {
+		c, ok := m.(*ast.CallExpr)
+		if !ok || bad != "" {
+			return bad == ""
+		}
+		if id, ok := c.Fun.(*ast.Ident); ok && p.shadow[id.Name] {
+			return true
+		}
+		if fd, _ := p.callee(c, "", ""); fd != nil {
+			if what := p.protocolInside(fd, 0, map[*ast.FuncDecl]bool{}); what != "" {
+				bad = "calls " + fd.Name.Name + ", which contains " + what
+			}
+		}
+		return true
+	})
+	return bad == "", bad
+}
+
+func (p *pkg) protocolInside(fd *ast.FuncDecl, depth int, seen map[*ast.FuncDecl]bool) string {
+	if seen[fd] || depth > 3 || fd.Body == nil {
+		return ""
+	}
+	seen[fd] = true
+	rn, rt := "", ""
+	if fd.Recv != nil && len(fd.Recv.List) == 1 && len(fd.Recv.List[0].Names) == 1 {
+		rn, rt = fd.Recv.List[0].Names[0].Name, typeName(fd.Recv.List[0].Type)
+	}
+	local := declaredNames(fd.Body)
+	what := ""
+	ast.Inspect(fd.Body, func(m ast.Node) bool {
+		if what != "" {
+			return false
+		}
+		switch x := m.(type) {
+		case *ast.GoStmt:
+			what = "a go statement"
+		case *ast.SendStmt:
+			what = "a channel send"
+		case *ast.SelectStmt:
+			what = "a select"
+		case *ast.UnaryExpr:
+			if x.Op == token.ARROW {
+				what = "a channel receive"
+			}
+		case *ast.CallExpr:
+			if isIdent(x.Fun, "close") {
+				what = "a close"
+			} else if se, ok := x.Fun.(*ast.SelectorExpr); ok && syncMethods[se.Sel.Name] {
+				what = "a call of " + se.Sel.Name
+			} else {
+				if id, ok := x.Fun.(*ast.Ident); ok && local[id.Name] {
+					return true
+				}
+				if g, _ := p.callee(x, rn, rt); g != nil {
+					if w := p.protocolInside(g, depth+1, seen); w != "" {
+						what = "a call of " + g.Name.Name + " (" + w + ")"
+					}
+				}
+			}
+		}
+		return what == ""
+	})
+	return what
 }
 
 // ---------------------------------------------------------------- small matchers
@@ -940,6 +1313,16 @@ func (p *pkg) lenTest(e ast.Expr, isX func(ast.Expr) bool, local map[string]int)
 	return "", 0, false
 }
 
+// emptyLit matches []T{}
+func emptyLit(e ast.Expr) bool {
+	cl, ok := e.(*ast.CompositeLit)
+	if !ok || len(cl.Elts) != 0 {
+		return false
+	}
+	at, ok := cl.Type.(*ast.ArrayType)
+	return ok && at.Len == nil
+}
+
 // emptyMake matches make(T, 0 [, cap])
 func emptyMake(e ast.Expr) bool {
 	c, ok := e.(*ast.CallExpr)
@@ -968,7 +1351,6 @@ func (p *pkg) bufferMethod(typ, method string) ([]Node, error) {
 	if err != nil {
 		return nil, err
 	}
-	p.expandFunc(fd)
 	st, err := p.structDecl(typ)
 	if err != nil {
 		return nil, err
@@ -1015,24 +1397,65 @@ func (p *pkg) bufferMethod(typ, method string) ([]Node, error) {
 			}
 		}
 	}
-	deferred := false
+	// `a.<mutex>.Lock(); defer a.<mutex>.Unlock()` is the Unlock written out before every return
+	// (the values returned must not depend on the protected state: they are checked to be Data below)
+	isMutexCall := func(c *ast.CallExpr, m string) bool {
+		x, mm := methodCall(c)
+		return c != nil && x != nil && isSel(x, r.recv, r.mutex) && mm == m && len(c.Args) == 0
+	}
+	var deferErr error
+	p.prepare(fd, func(list []ast.Stmt) []ast.Stmt {
+		for i := 0; i+1 < len(list); i++ {
+			ds, ok := list[i+1].(*ast.DeferStmt)
+			if !ok || !isMutexCall(callOf(list[i]), "Lock") || !isMutexCall(ds.Call, "Unlock") {
+				continue
+			}
+			rest := list[i+2:]
+			if hasDeferIn(rest) {
+				deferErr = p.errf(ds, "a second defer after the deferred Unlock")
+				return list
+			}
+			if !constReturns(rest) {
+				deferErr = p.errf(ds, "deferred Unlock in a function that returns a computed value")
+				return list
+			}
+			unlock := func() ast.Stmt { return &ast.ExprStmt{X: ds.Call} }
+			var ins func(l []ast.Stmt) []ast.Stmt
+			ins = func(l []ast.Stmt) []ast.Stmt {
+				var out []ast.Stmt
+				for _, s := range l {
+					if _, isRet := s.(*ast.ReturnStmt); isRet {
+						out = append(out, unlock())
+					}
+					forEachList(s, ins)
+					out = append(out, s)
+				}
+				return out
+			}
+			rest = ins(append([]ast.Stmt{}, rest...))
+			if !terminates(rest) {
+				rest = append(rest, unlock())
+			}
+			return append(append([]ast.Stmt{}, list[:i+1]...), rest...)
+		}
+		return list
+	})
+	if deferErr != nil {
+		return nil, deferErr
+	}
+	local := map[string]int{}
+	p.localConsts(fd.Body, local)
 	var block func(stmts []ast.Stmt, top bool) ([]Node, error)
 	block = func(stmts []ast.Stmt, top bool) ([]Node, error) {
 		var out []Node
-		for i, s := range stmts {
+		for _, s := range stmts {
 			if c := callOf(s); c != nil && len(c.Args) == 0 {
 				if x, m := methodCall(c); x != nil && isSel(x, r.recv, r.mutex) && (m == "Lock" || m == "Unlock") {
 					out = append(out, do("P"+m))
 					continue
 				}
 			}
-			if ds, ok := s.(*ast.DeferStmt); ok {
-				x, m := methodCall(ds.Call)
-				prevLock := len(out) > 0 && out[len(out)-1].Op == "Do" && out[len(out)-1].Prim == "PLock"
-				if top && x != nil && isSel(x, r.recv, r.mutex) && m == "Unlock" && len(ds.Call.Args) == 0 && prevLock && !deferred {
-					deferred = true
-					continue
-				}
+			if _, ok := s.(*ast.DeferStmt); ok {
 				return nil, p.errf(s, "defer not understood")
 			}
 			if as, ok := s.(*ast.AssignStmt); ok && as.Tok == token.ASSIGN && len(as.Lhs) == 1 && len(as.Rhs) == 1 && isSel(as.Lhs[0], r.recv, r.slice) {
@@ -1042,11 +1465,24 @@ func (p *pkg) bufferMethod(typ, method string) ([]Node, error) {
 					out = append(out, do("PAppendIn"))
 					continue
 				}
-				if isIdent(rhs, "nil") || emptyMake(p.resolve(rhs, nil)) {
+				if isIdent(rhs, "nil") || emptyMake(p.resolve(rhs, nil)) || emptyLit(p.resolve(rhs, nil)) {
 					out = append(out, do("PResetBuf"))
 					continue
 				}
 				return nil, p.errf(s, "assignment to the buffer slice not understood")
+			}
+			// for _, t := range in { a.<slice> = append(a.<slice>, t) }  is  a.<slice> = append(a.<slice>, in...)
+			if fr, ok := s.(*ast.RangeStmt); ok && r.in != "" && isIdent(fr.X, r.in) && fr.Tok == token.DEFINE &&
+				(fr.Key == nil || isIdent(fr.Key, "_")) && len(fr.Body.List) == 1 {
+				if v, ok := fr.Value.(*ast.Ident); ok && v.Name != "_" {
+					if as, ok := fr.Body.List[0].(*ast.AssignStmt); ok && as.Tok == token.ASSIGN && len(as.Lhs) == 1 && len(as.Rhs) == 1 && isSel(as.Lhs[0], r.recv, r.slice) {
+						if c, ok := as.Rhs[0].(*ast.CallExpr); ok && isIdent(c.Fun, "append") && len(c.Args) == 2 && !c.Ellipsis.IsValid() &&
+							isSel(c.Args[0], r.recv, r.slice) && isIdent(c.Args[1], v.Name) {
+							out = append(out, do("PAppendIn"))
+							continue
+						}
+					}
+				}
 			}
 			if ss, ok := s.(*ast.SendStmt); ok {
 				if isSel(ss.Chan, r.recv, r.ch) && isSel(ss.Value, r.recv, r.slice) {
@@ -1056,7 +1492,7 @@ func (p *pkg) bufferMethod(typ, method string) ([]Node, error) {
 				return nil, p.errf(s, "send not understood")
 			}
 			if is, ok := s.(*ast.IfStmt); ok && is.Init == nil {
-				if op, k, ok := p.lenTest(is.Cond, func(e ast.Expr) bool { return isSel(e, r.recv, r.slice) }, nil); ok {
+				if op, k, ok := p.lenTest(is.Cond, func(e ast.Expr) bool { return isSel(e, r.recv, r.slice) }, local); ok {
 					th, err := block(is.Body.List, false)
 					if err != nil {
 						return nil, err
@@ -1077,20 +1513,14 @@ func (p *pkg) bufferMethod(typ, method string) ([]Node, error) {
 			}
 			if rs, ok := s.(*ast.ReturnStmt); ok {
 				for _, e := range rs.Results {
-					if ok, why := isData(e, tracked); !ok {
+					if ok, why := p.isData(e, tracked); !ok {
 						return nil, p.errf(s, "return value %s", why)
 					}
-				}
-				if deferred {
-					if !top || i != len(stmts)-1 {
-						return nil, p.errf(s, "return before the end of a function with a deferred Unlock")
-					}
-					out = append(out, do("PUnlock"))
 				}
 				out = append(out, Node{Op: "Return"})
 				continue
 			}
-			if ok, why := isData(s, tracked); ok {
+			if ok, why := p.isData(s, tracked); ok {
 				out = append(out, data(p.fset, s))
 				continue
 			} else {
@@ -1099,14 +1529,7 @@ func (p *pkg) bufferMethod(typ, method string) ([]Node, error) {
 		}
 		return out, nil
 	}
-	out, err := block(fd.Body.List, true)
-	if err != nil {
-		return nil, err
-	}
-	if deferred && (len(out) == 0 || out[len(out)-1].Op != "Return") {
-		out = append(out, do("PUnlock"))
-	}
-	return out, nil
+	return block(fd.Body.List, true)
 }
 
 // ---------------------------------------------------------------- the To* drivers
@@ -1133,7 +1556,12 @@ func (p *pkg) driver(name string) ([]Node, error) {
 	if err != nil {
 		return nil, err
 	}
-	p.expandFunc(fd)
+	// `defer wg.Wait()`, `defer close(output)` .. of a driver that returns nothing computed are
+	// written out at its exits
+	p.prepare(fd, func(list []ast.Stmt) []ast.Stmt {
+		l, _ := p.undefer(list, func(*ast.CallExpr) bool { return true })
+		return l
+	})
 	tracked := map[string]bool{}
 	wg, output := "", ""
 	var handler func(stmts []ast.Stmt) ([]Node, error)
@@ -1142,14 +1570,14 @@ func (p *pkg) driver(name string) ([]Node, error) {
 		for _, s := range stmts {
 			if rs, ok := s.(*ast.ReturnStmt); ok {
 				for _, e := range rs.Results {
-					if ok, why := isData(e, tracked); !ok {
+					if ok, why := p.isData(e, tracked); !ok {
 						return nil, p.errf(s, "return value %s", why)
 					}
 				}
 				out = append(out, Node{Op: "Return"})
 				continue
 			}
-			if ok, why := isData(s, tracked); ok {
+			if ok, why := p.isData(s, tracked); ok {
 				out = append(out, data(p.fset, s))
 			} else {
 				return nil, p.errf(s, "statement not understood (%s)", why)
@@ -1179,7 +1607,7 @@ func (p *pkg) driver(name string) ([]Node, error) {
 		}
 		// the creation of the writer
 		if wg != "" && output == "" {
-			if c, as, h, n := fallible(stmts, i); n > 0 && mentionsAddrOf(c, wg) && len(as.Lhs) == 2 && as.Tok == token.DEFINE {
+			if c, as, h, n := fallible(stmts, i); n > 0 && mentionsAddrOf(c, wg) && len(as.Lhs) == 2 {
 				id, ok := as.Lhs[0].(*ast.Ident)
 				if !ok {
 					return nil, p.errf(s, "channel variable not understood")
@@ -1194,7 +1622,7 @@ func (p *pkg) driver(name string) ([]Node, error) {
 				i += n - 1
 				continue
 			}
-			if as, ok := s.(*ast.AssignStmt); ok && as.Tok == token.DEFINE && len(as.Lhs) == 1 && len(as.Rhs) == 1 {
+			if as, ok := s.(*ast.AssignStmt); ok && len(as.Lhs) == 1 && len(as.Rhs) == 1 {
 				if c, ok := as.Rhs[0].(*ast.CallExpr); ok && mentionsAddrOf(c, wg) {
 					id, ok := as.Lhs[0].(*ast.Ident)
 					if !ok {
@@ -1211,7 +1639,7 @@ func (p *pkg) driver(name string) ([]Node, error) {
 			// r.Render(s, sdf.NewXBuffer(output))
 			if _, m := methodCall(c); m == "Render" && len(c.Args) == 2 && output != "" {
 				if bc, ok := c.Args[1].(*ast.CallExpr); ok && len(bc.Args) == 1 && isIdent(bc.Args[0], output) {
-					if ok, why := isData(c.Args[0], tracked); !ok {
+					if ok, why := p.isData(c.Args[0], tracked); !ok {
 						return nil, p.errf(s, "Render argument %s", why)
 					}
 					b := lastName(calleeName(bc))
@@ -1234,14 +1662,14 @@ func (p *pkg) driver(name string) ([]Node, error) {
 		}
 		if rs, ok := s.(*ast.ReturnStmt); ok {
 			for _, e := range rs.Results {
-				if ok, why := isData(e, tracked); !ok {
+				if ok, why := p.isData(e, tracked); !ok {
 					return nil, p.errf(s, "return value %s", why)
 				}
 			}
 			out = append(out, Node{Op: "Return"})
 			continue
 		}
-		if ok, why := isData(s, tracked); ok {
+		if ok, why := p.isData(s, tracked); ok {
 			out = append(out, data(p.fset, s))
 			continue
 		} else {
@@ -1284,6 +1712,8 @@ func (p *pkg) writer(name string) ([]Node, error) {
 		return nil, err
 	}
 	p.expandFunc(fd)
+	local := map[string]int{}
+	p.localConsts(fd.Body, local)
 	wg := ""
 	for _, f := range fd.Type.Params.List {
 		if typeName(f.Type) == "sync.WaitGroup" {
@@ -1336,7 +1766,7 @@ func (p *pkg) writer(name string) ([]Node, error) {
 				out = append(out, n)
 				continue
 			}
-			if ok, why := isData(s, tracked); ok {
+			if ok, why := p.isData(s, tracked); ok {
 				out = append(out, data(p.fset, s))
 			} else {
 				return nil, p.errf(s, "statement not understood (%s)", why)
@@ -1350,7 +1780,7 @@ func (p *pkg) writer(name string) ([]Node, error) {
 		s := stmts[i]
 		if c, _, h, n := fallible(stmts, i); n > 0 {
 			for _, a := range c.Args {
-				if ok, why := isData(a, tracked); !ok {
+				if ok, why := p.isData(a, tracked); !ok {
 					return nil, p.errf(s, "argument %s", why)
 				}
 			}
@@ -1371,7 +1801,7 @@ func (p *pkg) writer(name string) ([]Node, error) {
 					}
 					capn := 0
 					if len(c.Args) == 2 {
-						v, ok := p.constVal(c.Args[1], nil)
+						v, ok := p.constVal(c.Args[1], local)
 						if !ok {
 							return nil, p.errf(s, "channel capacity is not a constant")
 						}
@@ -1386,7 +1816,7 @@ func (p *pkg) writer(name string) ([]Node, error) {
 		}
 		if c := callOf(s); c != nil {
 			if x, m := methodCall(c); m == "Add" && isIdent(x, wg) && len(c.Args) == 1 {
-				v, ok := p.constVal(c.Args[0], nil)
+				v, ok := p.constVal(c.Args[0], local)
 				if !ok {
 					return nil, p.errf(s, "WaitGroup.Add of a non-constant")
 				}
@@ -1421,7 +1851,7 @@ func (p *pkg) writer(name string) ([]Node, error) {
 			out = append(out, n)
 			continue
 		}
-		if ok, why := isData(s, tracked); ok {
+		if ok, why := p.isData(s, tracked); ok {
 			out = append(out, data(p.fset, s))
 			continue
 		} else {
@@ -1429,6 +1859,17 @@ func (p *pkg) writer(name string) ([]Node, error) {
 		}
 	}
 	return out, nil
+}
+
+// unconv strips parentheses and a conversion to an integer type: uint32(n) -> n.
+func unconv(e ast.Expr) ast.Expr {
+	e = unparen(e)
+	if c, ok := e.(*ast.CallExpr); ok && len(c.Args) == 1 {
+		if id, ok := c.Fun.(*ast.Ident); ok && intTypes[id.Name] {
+			return unconv(c.Args[0])
+		}
+	}
+	return e
 }
 
 func copyTracked(m map[string]bool) map[string]bool {
@@ -1453,6 +1894,20 @@ func (p *pkg) writerGoroutine(stmts []ast.Stmt, wg, ch string, tracked0 map[stri
 			return true
 		})
 	}
+	if count == "" {
+		// no increment found: a local of the goroutine that is copied into a field after the loops
+		// (hdr.Count = n) is still the counter - the program then lacks its PCount
+		local := topDeclared(stmts)
+		for _, s := range stmts {
+			if as, ok := s.(*ast.AssignStmt); ok && as.Tok == token.ASSIGN && len(as.Lhs) == 1 && len(as.Rhs) == 1 {
+				if _, isSel := as.Lhs[0].(*ast.SelectorExpr); isSel {
+					if id, ok := unconv(as.Rhs[0]).(*ast.Ident); ok && local[id.Name] {
+						count = id.Name
+					}
+				}
+			}
+		}
+	}
 	if count != "" {
 		tracked[count] = true
 	}
@@ -1464,11 +1919,11 @@ func (p *pkg) writerGoroutine(stmts []ast.Stmt, wg, ch string, tracked0 map[stri
 				out = append(out, Node{Op: "Return"})
 				continue
 			}
-			if fr, ok := s.(*ast.RangeStmt); ok && where == "item" && fr.Key == nil && fr.Value == nil && isIdent(fr.X, ch) && len(fr.Body.List) == 0 {
+			if fr, ok := s.(*ast.RangeStmt); ok && where == "item" && (fr.Key == nil || isIdent(fr.Key, "_")) && fr.Value == nil && isIdent(fr.X, ch) && len(fr.Body.List) == 0 {
 				out = append(out, Node{Op: "Drain"})
 				continue
 			}
-			if ok, why := isData(s, tracked); ok {
+			if ok, why := p.isData(s, tracked); ok {
 				out = append(out, data(p.fset, s))
 			} else {
 				return nil, p.errf(s, "statement of an error path not understood (%s)", why)
@@ -1483,7 +1938,7 @@ func (p *pkg) writerGoroutine(stmts []ast.Stmt, wg, ch string, tracked0 map[stri
 			s := is[i]
 			if c, _, h, n := fallible(is, i); n > 0 {
 				for _, a := range c.Args {
-					if ok, why := isData(a, tracked); !ok {
+					if ok, why := p.isData(a, tracked); !ok {
 						return nil, p.errf(s, "argument %s", why)
 					}
 				}
@@ -1501,7 +1956,7 @@ func (p *pkg) writerGoroutine(stmts []ast.Stmt, wg, ch string, tracked0 map[stri
 				protocol = true
 				continue
 			}
-			if ok, why := isData(s, tracked); ok {
+			if ok, why := p.isData(s, tracked); ok {
 				out = append(out, data(p.fset, s))
 			} else {
 				return nil, p.errf(s, "statement of the item loop not understood (%s)", why)
@@ -1540,8 +1995,16 @@ func (p *pkg) writerGoroutine(stmts []ast.Stmt, wg, ch string, tracked0 map[stri
 			var body []Node
 			for _, b := range fr.Body.List {
 				if ir, ok := b.(*ast.RangeStmt); ok && isIdent(ir.X, key.Name) {
-					if ir.Tok != token.DEFINE || ir.Value == nil || (ir.Key != nil && !isIdent(ir.Key, "_")) {
+					if ir.Tok != token.DEFINE && ir.Key != nil {
 						return nil, p.errf(b, "item loop not understood")
+					}
+					for _, kv := range []ast.Expr{ir.Key, ir.Value} {
+						if kv == nil {
+							continue
+						}
+						if id, ok := kv.(*ast.Ident); !ok || tracked[id.Name] {
+							return nil, p.errf(b, "item loop not understood")
+						}
 					}
 					ib, err := itemBody(ir.Body.List)
 					if err != nil {
@@ -1550,7 +2013,7 @@ func (p *pkg) writerGoroutine(stmts []ast.Stmt, wg, ch string, tracked0 map[stri
 					body = append(body, Node{Op: "RangeItems", A: ib})
 					continue
 				}
-				if ok, why := isData(b, tracked); ok {
+				if ok, why := p.isData(b, tracked); ok {
 					body = append(body, data(p.fset, b))
 				} else {
 					return nil, p.errf(b, "statement of the receive loop not understood (%s)", why)
@@ -1562,7 +2025,7 @@ func (p *pkg) writerGoroutine(stmts []ast.Stmt, wg, ch string, tracked0 map[stri
 		}
 		if c, _, h, n := fallible(stmts, i); n > 0 {
 			for _, a := range c.Args {
-				if ok, why := isData(a, tracked); !ok {
+				if ok, why := p.isData(a, tracked); !ok {
 					return nil, p.errf(s, "argument %s", why)
 				}
 			}
@@ -1574,8 +2037,8 @@ func (p *pkg) writerGoroutine(stmts []ast.Stmt, wg, ch string, tracked0 map[stri
 			i += n - 1
 			continue
 		}
-		if as, ok := s.(*ast.AssignStmt); ok && as.Tok == token.ASSIGN && len(as.Lhs) == 1 && len(as.Rhs) == 1 && count != "" && isIdent(as.Rhs[0], count) {
-			if ok, why := isData(as.Lhs[0], tracked); !ok {
+		if as, ok := s.(*ast.AssignStmt); ok && as.Tok == token.ASSIGN && len(as.Lhs) == 1 && len(as.Rhs) == 1 && count != "" && isIdent(unconv(as.Rhs[0]), count) {
+			if ok, why := p.isData(as.Lhs[0], tracked); !ok {
 				return nil, p.errf(s, "assignment of the counter: %s", why)
 			}
 			out = append(out, do("PSetHdr"))
@@ -1585,7 +2048,33 @@ func (p *pkg) writerGoroutine(stmts []ast.Stmt, wg, ch string, tracked0 map[stri
 			out = append(out, Node{Op: "Return"})
 			continue
 		}
-		if ok, why := isData(s, tracked); ok {
+		// the declaration of the counter: `var n T`, `n := 0`, `var n = 0` (before the receive loop)
+		if as, ok := s.(*ast.AssignStmt); ok && as.Tok == token.DEFINE && len(as.Lhs) == 1 && len(as.Rhs) == 1 && count != "" && isIdent(as.Lhs[0], count) {
+			seenLoop := false
+			for _, n := range out {
+				seenLoop = seenLoop || n.Op == "RangeChan"
+			}
+			if z, ok := intLit(unconv(as.Rhs[0])); ok && z == 0 && !seenLoop {
+				out = append(out, data(p.fset, s))
+				continue
+			}
+			return nil, p.errf(s, "the counter does not start at 0")
+		}
+		if ds, ok := s.(*ast.DeclStmt); ok && count != "" {
+			if gd, ok := ds.Decl.(*ast.GenDecl); ok && gd.Tok == token.VAR {
+				for _, sp := range gd.Specs {
+					vs := sp.(*ast.ValueSpec)
+					for i, id := range vs.Names {
+						if id.Name == count && i < len(vs.Values) {
+							if z, ok := intLit(unconv(vs.Values[i])); !ok || z != 0 {
+								return nil, p.errf(s, "the counter does not start at 0")
+							}
+						}
+					}
+				}
+			}
+		}
+		if ok, why := p.isData(s, tracked); ok {
 			out = append(out, data(p.fset, s))
 			continue
 		} else {
@@ -1751,7 +2240,7 @@ func (p *pkg) evalRoutines(name string, r reqRoles) ([]Node, error) {
 					continue
 				}
 			}
-			if ok, why := isData(s, tracked); ok {
+			if ok, why := p.isData(s, tracked); ok {
 				out = append(out, data(p.fset, s))
 			} else {
 				return nil, p.errf(s, "statement of the evaluation routine not understood (%s)", why)
@@ -1763,7 +2252,7 @@ func (p *pkg) evalRoutines(name string, r reqRoles) ([]Node, error) {
 	top = func(stmts []ast.Stmt, inCPU bool) ([]Node, error) {
 		var out []Node
 		for _, s := range stmts {
-			if fs, ok := s.(*ast.ForStmt); ok && !inCPU {
+			if fs, ok := asCounted(s); ok && !inCPU {
 				if !p.countedLoop(fs, func(e ast.Expr) bool {
 					c, ok := p.resolve(e, locals).(*ast.CallExpr)
 					return ok && calleeName(c) == "runtime.NumCPU" && len(c.Args) == 0
@@ -1789,7 +2278,7 @@ func (p *pkg) evalRoutines(name string, r reqRoles) ([]Node, error) {
 				out = append(out, Node{Op: "Go", A: b})
 				continue
 			}
-			if ok, why := isData(s, tracked); ok {
+			if ok, why := p.isData(s, tracked); ok {
 				out = append(out, data(p.fset, s))
 			} else {
 				return nil, p.errf(s, "statement not understood (%s)", why)
@@ -1800,8 +2289,42 @@ func (p *pkg) evalRoutines(name string, r reqRoles) ([]Node, error) {
 	return top(fd.Body.List, false)
 }
 
+// asCounted: a for statement, or `for v := range N` (Go 1.22: N an integer) as `for v := 0; v < N; v++`.
+// Whether N is an integer is not visible here: the callers use the bound in a way that is only
+// right for an integer (it must be runtime.NumCPU(), or its product must be the allocated length),
+// or do not depend on it (ForSteps: any number of iterations).
+func asCounted(s ast.Stmt) (*ast.ForStmt, bool) {
+	switch x := s.(type) {
+	case *ast.ForStmt:
+		return x, true
+	case *ast.RangeStmt:
+		if x.Value != nil || (x.Key != nil && x.Tok != token.DEFINE) {
+			return nil, false
+		}
+		name := "i_"
+		if x.Key != nil {
+			id, ok := x.Key.(*ast.Ident)
+			if !ok {
+				return nil, false
+			}
+			if id.Name != "_" {
+				name = id.Name
+			}
+		}
+		return &ast.ForStmt{For: x.For,
+			Init: &ast.AssignStmt{Lhs: []ast.Expr{ast.NewIdent(name)}, Tok: token.DEFINE, Rhs: []ast.Expr{&ast.BasicLit{Kind: token.INT, Value: "0"}}},
+			Cond: &ast.BinaryExpr{X: ast.NewIdent(name), Op: token.LSS, Y: x.X},
+			Post: &ast.IncDecStmt{X: ast.NewIdent(name), Tok: token.INC},
+			Body: x.Body}, true
+	}
+	return nil, false
+}
+
 // countedLoop matches `for v := 0; v < BOUND; v++ { }` with isBound(BOUND).
 func (p *pkg) countedLoop(fs *ast.ForStmt, isBound func(ast.Expr) bool) bool {
+	if fs.Init == nil || fs.Cond == nil || fs.Post == nil {
+		return false
+	}
 	as, ok := fs.Init.(*ast.AssignStmt)
 	if !ok || as.Tok != token.DEFINE || len(as.Lhs) != 1 || len(as.Rhs) != 1 {
 		return false
@@ -1813,12 +2336,31 @@ func (p *pkg) countedLoop(fs *ast.ForStmt, isBound func(ast.Expr) bool) bool {
 	if z, ok := intLit(as.Rhs[0]); !ok || z != 0 {
 		return false
 	}
-	be, ok := fs.Cond.(*ast.BinaryExpr)
-	if !ok || be.Op != token.LSS || !isIdent(be.X, v.Name) || !isBound(be.Y) {
+	be, ok := unparen(fs.Cond).(*ast.BinaryExpr)
+	if !ok {
 		return false
 	}
-	ids, ok := fs.Post.(*ast.IncDecStmt)
-	return ok && ids.Tok == token.INC && isIdent(ids.X, v.Name)
+	x, y, op := be.X, be.Y, be.Op
+	if isIdent(unparen(y), v.Name) { // N > v
+		x, y = y, x
+		op = map[token.Token]token.Token{token.GTR: token.LSS, token.GEQ: token.LEQ}[op]
+	}
+	if op == token.LEQ {
+		y = &ast.BinaryExpr{X: y, Op: token.ADD, Y: &ast.BasicLit{Kind: token.INT, Value: "1"}}
+		op = token.LSS
+	}
+	if op != token.LSS || !isIdent(unparen(x), v.Name) || !isBound(y) {
+		return false
+	}
+	if ids, ok := fs.Post.(*ast.IncDecStmt); ok {
+		return ids.Tok == token.INC && isIdent(ids.X, v.Name)
+	}
+	// v += 1
+	if as, ok := fs.Post.(*ast.AssignStmt); ok && as.Tok == token.ADD_ASSIGN && len(as.Lhs) == 1 && len(as.Rhs) == 1 && isIdent(as.Lhs[0], v.Name) {
+		one, ok := intLit(as.Rhs[0])
+		return ok && one == 1
+	}
+	return false
 }
 
 // assignsTo: does the statement list assign to (or take the address of) the variable v?
@@ -1868,17 +2410,19 @@ func (p *pkg) layerEvaluate(typ, method string, r reqRoles) ([]Node, error) {
 	p.expandFunc(fd)
 	tracked := map[string]bool{r.queue: true}
 	local := map[string]int{}
+	p.localConsts(fd.Body, local)
 	req := ""
 	arrayExpr := ""
-	var layerLen []string // make([]float64, E) found in the function
+	var layerLen []ast.Expr // make([]float64, E) found in the function
 	ast.Inspect(fd.Body, func(n ast.Node) bool {
 		if c, ok := n.(*ast.CallExpr); ok && isIdent(c.Fun, "make") && len(c.Args) == 2 {
 			if at, ok := c.Args[0].(*ast.ArrayType); ok && at.Len == nil && isIdent(at.Elt, "float64") {
-				layerLen = append(layerLen, expr(p.fset, c.Args[1]))
+				layerLen = append(layerLen, c.Args[1])
 			}
 		}
 		return true
 	})
+	defs := singleDefs(fd.Body)
 	isPts := func(e ast.Expr) bool { return req != "" && isSel(e, req, r.pts) }
 	var block func(stmts []ast.Stmt, inPoints bool) ([]Node, error)
 	block = func(stmts []ast.Stmt, inPoints bool) ([]Node, error) {
@@ -1888,16 +2432,6 @@ func (p *pkg) layerEvaluate(typ, method string, r reqRoles) ([]Node, error) {
 			if ds, ok := s.(*ast.DeclStmt); ok {
 				gd := ds.Decl.(*ast.GenDecl)
 				if gd.Tok == token.CONST {
-					for _, sp := range gd.Specs {
-						vs := sp.(*ast.ValueSpec)
-						for i, id := range vs.Names {
-							if i < len(vs.Values) {
-								if v, ok := intLit(vs.Values[i]); ok {
-									local[id.Name] = v
-								}
-							}
-						}
-					}
 					out = append(out, data(p.fset, s))
 					continue
 				}
@@ -1928,11 +2462,11 @@ func (p *pkg) layerEvaluate(typ, method string, r reqRoles) ([]Node, error) {
 							}
 						case r.out:
 							arrayExpr = expr(p.fset, kv.Value)
-							if ok, why := isData(kv.Value, tracked); !ok {
+							if ok, why := p.isData(kv.Value, tracked); !ok {
 								return nil, p.errf(s, "output array %s", why)
 							}
 						case r.fn:
-							if ok, why := isData(kv.Value, tracked); !ok {
+							if ok, why := p.isData(kv.Value, tracked); !ok {
 								return nil, p.errf(s, "function %s", why)
 							}
 						default:
@@ -1955,7 +2489,7 @@ func (p *pkg) layerEvaluate(typ, method string, r reqRoles) ([]Node, error) {
 						continue
 					}
 					if c, ok := as.Rhs[0].(*ast.CallExpr); ok && inPoints && isIdent(c.Fun, "append") && len(c.Args) == 2 && !c.Ellipsis.IsValid() && isPts(c.Args[0]) {
-						if ok, why := isData(c.Args[1], tracked); !ok {
+						if ok, why := p.isData(c.Args[1], tracked); !ok {
 							return nil, p.errf(s, "appended point %s", why)
 						}
 						out = append(out, do("PAppendPt"))
@@ -2016,15 +2550,15 @@ func (p *pkg) layerEvaluate(typ, method string, r reqRoles) ([]Node, error) {
 				}
 			}
 			// the loop nest over the points of the layer
-			if fs, ok := s.(*ast.ForStmt); ok && !inPoints && req != "" {
-				var ob, ib string
-				if !p.countedLoop(fs, func(e ast.Expr) bool { ob = expr(p.fset, e); return true }) {
+			if fs, ok := asCounted(s); ok && !inPoints && req != "" {
+				var ob, ib ast.Expr
+				if !p.countedLoop(fs, func(e ast.Expr) bool { ob = e; return true }) {
 					return nil, p.errf(s, "outer loop is not `for v := 0; v < N; v++`")
 				}
 				var inner *ast.ForStmt
 				var pre, post []ast.Stmt
 				for _, b := range fs.Body.List {
-					if f2, ok := b.(*ast.ForStmt); ok {
+					if f2, ok := asCounted(b); ok {
 						if inner != nil {
 							return nil, p.errf(b, "two inner loops")
 						}
@@ -2035,7 +2569,7 @@ func (p *pkg) layerEvaluate(typ, method string, r reqRoles) ([]Node, error) {
 						post = append(post, b)
 					}
 				}
-				if inner == nil || !p.countedLoop(inner, func(e ast.Expr) bool { ib = expr(p.fset, e); return true }) {
+				if inner == nil || !p.countedLoop(inner, func(e ast.Expr) bool { ib = e; return true }) {
 					return nil, p.errf(s, "inner loop is not `for v := 0; v < N; v++`")
 				}
 				ov := fs.Init.(*ast.AssignStmt).Lhs[0].(*ast.Ident).Name
@@ -2043,18 +2577,45 @@ func (p *pkg) layerEvaluate(typ, method string, r reqRoles) ([]Node, error) {
 				if assignsTo(fs.Body.List, ov) || assignsTo(inner.Body.List, iv) || assignsTo(inner.Body.List, ov) {
 					return nil, p.errf(s, "a loop variable is modified inside the loop")
 				}
-				want := "(" + ob + ")*(" + ib + ")"
+				// the number of points is compared with the allocated length as a polynomial in the
+				// variables of the function (locals defined once stand for their definitions)
+				want, okW := p.polyOf(&ast.BinaryExpr{X: &ast.ParenExpr{X: ob}, Op: token.MUL, Y: &ast.ParenExpr{X: ib}}, defs, local, 0)
 				okLen := false
+				var found []string
 				for _, l := range layerLen {
-					if l == want {
+					found = append(found, expr(p.fset, l))
+					if have, ok := p.polyOf(l, defs, local, 0); ok && okW && have.equal(want) {
 						okLen = true
 					}
 				}
 				if !okLen {
-					return nil, p.errf(s, "the loops run over (%s)*(%s) points but no make([]float64, %s) is in the function (found %v)", ob, ib, want, layerLen)
+					return nil, p.errf(s, "the loops run over (%s)*(%s) points but no make([]float64, ..) of that length is in the function (found %v)",
+						expr(p.fset, ob), expr(p.fset, ib), found)
+				}
+				// the variables the count is made of keep their values throughout the function
+				assigned := map[string]bool{}
+				ast.Inspect(fd.Body, func(n ast.Node) bool {
+					switch x := n.(type) {
+					case *ast.AssignStmt:
+						if x.Tok != token.DEFINE {
+							for _, l := range x.Lhs {
+								assigned[expr(p.fset, l)] = true
+							}
+						}
+					case *ast.IncDecStmt:
+						assigned[expr(p.fset, x.X)] = true
+					}
+					return true
+				})
+				for mono := range want {
+					for _, atom := range splitMono(mono) {
+						if assigned[atom] {
+							return nil, p.errf(s, "%s, which the number of points depends on, is assigned in the function", atom)
+						}
+					}
 				}
 				for _, d := range append(append([]ast.Stmt{}, pre...), post...) {
-					if ok, why := isData(d, tracked); !ok {
+					if ok, why := p.isData(d, tracked); !ok {
 						return nil, p.errf(d, "statement of the outer loop not understood (%s)", why)
 					}
 					out = append(out, Node{Op: "Data", Text: "(outer loop) " + src(p.fset, d)})
@@ -2066,7 +2627,7 @@ func (p *pkg) layerEvaluate(typ, method string, r reqRoles) ([]Node, error) {
 				out = append(out, Node{Op: "ForPoints", A: b})
 				continue
 			}
-			if ok, why := isData(s, tracked); ok {
+			if ok, why := p.isData(s, tracked); ok {
 				out = append(out, data(p.fset, s))
 				continue
 			} else {
@@ -2103,10 +2664,33 @@ func (p *pkg) layerEvaluate(typ, method string, r reqRoles) ([]Node, error) {
 //
 //	<sync.Once>.Do(f)                 OnceDo "f"
 //	f()                               Do (PCall "f")        (f a function of this package without arguments and results)
-//	x.Evaluate(s, i)                  Do PLayerEval         (x of the layer type)
+//	x.Evaluate(s, i)                  Do PLayerEval         (x := a value of the layer type: literal, new, constructor)
 //	output.Write(..)                  Do POutWrite
 //	for v := 0; v < N; v++ { .. }     ForSteps [..]
-func (p *pkg) marching(name, layerCtor string) ([]Node, error) {
+//
+// hasType: the expression visibly has type T or *T - a composite literal (or its address), new(T),
+// or a call of a function of this package declared with that single result type.
+func (p *pkg) hasType(e ast.Expr, T string) bool {
+	switch x := unparen(e).(type) {
+	case *ast.CompositeLit:
+		return x.Type != nil && typeName(x.Type) == T
+	case *ast.UnaryExpr:
+		return x.Op == token.AND && p.hasType(x.X, T)
+	case *ast.CallExpr:
+		if isIdent(x.Fun, "new") && len(x.Args) == 1 {
+			return typeName(x.Args[0]) == T
+		}
+		if id, ok := x.Fun.(*ast.Ident); ok && !p.shadow[id.Name] {
+			if fd, err := p.funcDecl("", id.Name); err == nil && fd.Type.Results != nil && len(fd.Type.Results.List) == 1 &&
+				len(fd.Type.Results.List[0].Names) <= 1 {
+				return typeName(fd.Type.Results.List[0].Type) == T
+			}
+		}
+	}
+	return false
+}
+
+func (p *pkg) marching(name, layerType string) ([]Node, error) {
 	fd, err := p.funcDecl("", name)
 	if err != nil {
 		return nil, err
@@ -2128,12 +2712,12 @@ func (p *pkg) marching(name, layerCtor string) ([]Node, error) {
 		var out []Node
 		for _, s := range stmts {
 			if as, ok := s.(*ast.AssignStmt); ok && as.Tok == token.DEFINE && len(as.Lhs) == 1 && len(as.Rhs) == 1 && layer == "" {
-				if c, ok := as.Rhs[0].(*ast.CallExpr); ok && isIdent(c.Fun, layerCtor) {
+				if c := as.Rhs[0]; p.hasType(c, layerType) {
 					id, ok := as.Lhs[0].(*ast.Ident)
 					if !ok {
 						return nil, p.errf(s, "layer variable not understood")
 					}
-					if ok, why := isData(c, tracked); !ok {
+					if ok, why := p.isData(c, tracked); !ok {
 						return nil, p.errf(s, "layer creation %s", why)
 					}
 					layer = id.Name
@@ -2161,7 +2745,7 @@ func (p *pkg) marching(name, layerCtor string) ([]Node, error) {
 				}
 				if layer != "" && isIdent(x, layer) && m == "Evaluate" {
 					for _, a := range c.Args {
-						if ok, why := isData(a, tracked); !ok {
+						if ok, why := p.isData(a, tracked); !ok {
 							return nil, p.errf(s, "argument %s", why)
 						}
 					}
@@ -2169,15 +2753,15 @@ func (p *pkg) marching(name, layerCtor string) ([]Node, error) {
 					continue
 				}
 				if isIdent(x, output) && m == "Write" && len(c.Args) == 1 {
-					if ok, why := isData(c.Args[0], tracked); !ok {
+					if ok, why := p.isData(c.Args[0], tracked); !ok {
 						return nil, p.errf(s, "argument %s", why)
 					}
 					out = append(out, do("POutWrite"))
 					continue
 				}
 			}
-			if fs, ok := s.(*ast.ForStmt); ok {
-				if !p.countedLoop(fs, func(e ast.Expr) bool { ok, _ := isData(e, tracked); return ok }) {
+			if fs, ok := asCounted(s); ok {
+				if !p.countedLoop(fs, func(e ast.Expr) bool { ok, _ := p.isData(e, tracked); return ok }) {
 					return nil, p.errf(s, "loop is not `for v := 0; v < N; v++`")
 				}
 				b, err := block(fs.Body.List)
@@ -2187,7 +2771,7 @@ func (p *pkg) marching(name, layerCtor string) ([]Node, error) {
 				out = append(out, Node{Op: "ForSteps", A: b})
 				continue
 			}
-			if ok, why := isData(s, tracked); ok {
+			if ok, why := p.isData(s, tracked); ok {
 				// a Data statement must not call a target function behind our back
 				bad := ""
 				ast.Inspect(s, func(n ast.Node) bool {
@@ -2223,15 +2807,30 @@ type def struct {
 	Body []Node
 }
 
-// batchOf finds the batch size in the program of layerYZ.Evaluate: the constant the length of the
-// point slice is compared with (==) inside the loop over the points of the layer.
+// batchOf finds the batch size in the program of layerYZ.Evaluate: the length of the point slice
+// at which the loop over the points of the layer sends a request.
 func batchOf(prog []Node) (int, error) {
 	found := []int{}
 	var walk func(ns []Node, inPoints bool)
 	walk = func(ns []Node, inPoints bool) {
 		for _, n := range ns {
-			if n.Op == "IfLen" && inPoints && n.Cmp == "CEq" {
-				found = append(found, n.N)
+			if n.Op == "IfLen" && inPoints {
+				// the length at which the branch that sends is taken: == n, >= n, > n-1 (and the
+				// negated tests when the send is in the else branch)
+				sends := func(ns []Node) bool {
+					for _, m := range ns {
+						if m.Op == "Do" && m.Prim == "PSendReq" {
+							return true
+						}
+					}
+					return false
+				}
+				switch {
+				case sends(n.A) && (n.Cmp == "CEq" || n.Cmp == "CGe"), sends(n.B) && (n.Cmp == "CNe" || n.Cmp == "CLt"):
+					found = append(found, n.N)
+				case sends(n.A) && n.Cmp == "CGt", sends(n.B) && n.Cmp == "CLe":
+					found = append(found, n.N+1)
+				}
 			}
 			walk(n.A, inPoints || n.Op == "ForPoints")
 			walk(n.B, inPoints || n.Op == "ForPoints")
@@ -2319,7 +2918,7 @@ func Translate(repo string) ([]byte, error) {
 	if err != nil {
 		return nil, err
 	}
-	b, err = render.marching("marchingCubes", "newLayerYZ")
+	b, err = render.marching("marchingCubes", "layerYZ")
 	if err := add("marchingCubes", "render: marchingCubes", b, err); err != nil {
 		return nil, err
 	}
